@@ -42,12 +42,14 @@ func NewProcessor(gw *Gateway, tunnel *Tunnel) *Processor {
 const tunnelId = 10
 
 func (p *Processor) Process(ctx context.Context) error {
+	defer verifHook("proc.exit", p.tunnel)
 	for {
 		pt, sz, pkt, err := p.tunnel.Read()
 		if err != nil {
 			log.Printf("Cannot read message from stream %p", err)
 			return err
 		}
+		verifHook("proc.recv", p.tunnel, pt, sz)
 
 		switch pt {
 		case PKT_TYPE_HANDSHAKE_REQUEST:
@@ -132,7 +134,9 @@ func (p *Processor) Process(ctx context.Context) error {
 				}
 			}
 			log.Printf("Establishing connection to RDP server: %s", host)
+			verifHook("proc.dial", p.tunnel, host)
 			p.tunnel.rwc, err = net.DialTimeout("tcp", host, time.Second*15)
+			verifHook("proc.dialed", p.tunnel, host, err == nil)
 			if err != nil {
 				log.Printf("Error connecting to %s, %s", host, err)
 				msg := p.channelResponse(E_PROXY_INTERNALERROR)
@@ -177,6 +181,7 @@ func (p *Processor) Process(ctx context.Context) error {
 		default:
 			log.Printf("Unknown packet (size %d): %x", sz, pkt)
 		}
+		verifHook("proc.step", p.tunnel, pt)
 	}
 }
 
